@@ -365,7 +365,7 @@ func (r *Runner) FreeCall(method string, size, k int, nsw bool, cancel string, d
 				tr.Await(from, SyncTimeout, func(ev vtrace.Event) bool {
 					if ev.Tok == tok {
 						switch ev.Ev {
-						case "SendDone", "CtxSkip", "BrokenReply", "ClosedReply":
+						case "SendDone", "CtxSkip", "BrokenReply", "ClosedReply", "CtxReply":
 							settled++
 						}
 					}
